@@ -316,3 +316,299 @@ for _v in ("autoscaling", "serverless", "on-premise"):
 
 
 LOOP_SPECS = {"efootprint.core.hardware.server_base.ServerBase.compute_hour_by_hour_resource_need": _need_loops()}
+
+
+# =====================================================================================================================
+# Storage
+# =====================================================================================================================
+TB = 8 * 10**12
+
+
+@update("Storage", "update_carbon_footprint_fabrication", kind="Q")
+def st_cff(I, g):
+    return ("q", g.q("carbon_footprint_fabrication_per_storage_capacity") * g.q("storage_capacity"), W.MASS)
+
+
+@update("Storage", "update_power", kind="Q")
+def st_power(I, g):
+    return ("q", g.q("power_per_storage_capacity") * g.q("storage_capacity"), W.POWER)
+
+
+def _stored_fold(I, g, positive):
+    jobs = g.lst("jobs")
+    def term(j):
+        gj = G(I, jobs.elem(j))
+        ds = gj.mv("hourly_data_stored_across_usage_patterns")
+        st = gj.q("data_stored")
+        return MV(z3.Or(ds.is_empty, (st < 0) if positive else (st >= 0)), ds.vec, DIMLESS)
+    return FoldMV(I, "stored+" if positive else "stored-", term, DIMLESS), jobs
+
+
+def _ghost_bounds(I, mv: MV, name):
+    """give a specification series explicit tmin / tmax / len ghosts (with their defining facts)"""
+    v = mv.vec
+    v.tmin, v.tmax, v.n = z3.Int(name + ".tmin"), z3.Int(name + ".tmax"), z3.Int(name + ".len")
+    I.eng.assume(z3.Implies(z3.Not(mv.is_empty), v.n >= 1))
+    I.add_universal(lambda t: z3.Implies(z3.And(z3.Not(mv.is_empty), v.inidx(t)), z3.And(v.tmin <= t, t <= v.tmax)))
+    I.eng.assume(z3.Implies(z3.Not(mv.is_empty), z3.And(v.inidx(v.tmin), v.inidx(v.tmax), v.tmin <= v.tmax)))
+    I.add_point(v.tmin); I.add_point(v.tmax)
+    return mv
+
+
+def _cached(I, key, f):
+    c = I.eng.run.cache
+    if key not in c: c[key] = f()
+    return c[key]
+
+
+def mv_storage_needed(I, g):
+    """needed(t) = replication * sum over jobs that store data (data_stored >= 0) of their hourly stored volume"""
+    def mk():
+        F, jobs = _stored_fold(I, g, True)
+        return _ghost_bounds(I, mv_scale(F.at(jobs.n), g.q("data_replication_factor")), "storage_needed")
+    return _cached(I, ("mv_storage_needed", g.o.name), mk)
+
+
+def mv_storage_freed(I, g):
+    def mk():
+        F, jobs = _stored_fold(I, g, False)
+        return _ghost_bounds(I, mv_scale(F.at(jobs.n), g.q("data_replication_factor")), "storage_freed")
+    return _cached(I, ("mv_storage_freed", g.o.name), mk)
+
+
+def _stored_loops(positive):
+    def loops():
+        def loop0(ctx):
+            I = ctx.interp
+            F, jobs = _stored_fold(I, G(I, ctx.env["self"]), positive)
+            var = "storage_needed" if positive else "storage_freed"
+            def view(i): return {var: mv_to_explu(F.at(i))}
+            view.commutative = True
+            return view
+        return {0: loop0}
+    return loops
+
+
+@update("Storage", "storage_needed", attr="")
+def st_needed(I, g): return mv_storage_needed(I, g)
+
+
+@update("Storage", "storage_freed", attr="")
+def st_freed(I, g): return mv_storage_freed(I, g)
+
+
+def _explu_from_spec(I, mv, unit_name="TB", label="spec value"):
+    u_ = I.units.literal(unit_name)
+    e = Expl("ehq", DF(mv.vec, u_), Label(True, label))
+    return ExplU(mv.is_empty, e)
+
+
+def call_storage_needed(I, o): return _explu_from_spec(I, mv_storage_needed(I, G(I, o)), label="Hourly storage need")
+def call_storage_freed(I, o): return _explu_from_spec(I, mv_storage_freed(I, G(I, o)), label="Hourly storage freed")
+
+
+def _dump_shift(I, g):
+    return ceil_i(g.q("data_storage_duration") / HOUR_S)
+
+
+def mv_storage_dumps(I, g):
+    """dumps: every replicated write expires S = ceil(storage duration in hours) hours later, within the modelled period:
+    v0(dumps, t) = -needed(t - S) if t - S is an hour of `needed` and t <= tmax(needed), else 0.  The index is left
+    abstract (ghost DIN) but lies inside [tmin(needed), tmax(needed)] and contains every hour with an expiry."""
+    key = ("mv_storage_dumps", g.o.name)
+    if key in I.eng.run.cache: return I.eng.run.cache[key]
+    needed = mv_storage_needed(I, g)
+    S = _dump_shift(I, g)
+    DIN = z3.Function("storage_dumps.in", I_, B); DV = z3.Function("storage_dumps.val", I_, R)
+    nv = needed.vec
+    cond = lambda t: z3.And(nv.inidx(t - HOUR * S), t <= nv.tmax)
+    I.add_universal(lambda t: z3.Implies(z3.Not(needed.is_empty), z3.And(
+        z3.If(DIN(t), DV(t), z3.RealVal(0)) == z3.If(cond(t), -nv.val(t - HOUR * S), z3.RealVal(0)),
+        z3.Implies(DIN(t), z3.And(nv.tmin <= t, t <= nv.tmax)),
+        z3.Implies(cond(t), DIN(t)))))
+    I.eng.run.cache[key] = (MV(needed.is_empty, Vec(lambda t: DIN(t), lambda t: DV(t)), DIMLESS), needed, S, cond)
+    return I.eng.run.cache[key]
+
+
+def call_storage_dumps(I, o):
+    mv, _, _, _ = mv_storage_dumps(I, G(I, o))
+    return _explu_from_spec(I, mv, "TB", label="Storage dumps")
+
+
+def _post_dumps(I, g, res, qual):
+    eng = I.eng
+    mv, needed, S, cond = mv_storage_dumps(I, g)
+    if isinstance(res, ExplU): res = I.resolve(res)
+    if res.kind == "empty":
+        eng.oblige(f"{qual}/Empty only when no job stores data", needed.is_empty); return
+    eng.oblige(f"{qual}/Empty when no job stores data", z3.Not(needed.is_empty))
+    v = res.value.vec; nv = needed.vec
+    eng.oblige(f"{qual}/dimension", res.value.unit.dim == DIMLESS)
+    eng.oblige(f"{qual}/expiry value: -needed(t - S) at expiry hours inside the period, 0 elsewhere",
+               v.v0(TT) == z3.If(cond(TT), -nv.val(TT - HOUR * S), z3.RealVal(0)))
+    eng.oblige(f"{qual}/index inside the modelled period", z3.Implies(v.inidx(TT), z3.And(nv.tmin <= TT, TT <= nv.tmax)))
+    eng.oblige(f"{qual}/index contains every expiry hour", z3.Implies(cond(TT), v.inidx(TT)))
+    eng.oblige(f"{qual}/shift is not negative", S >= 0)
+
+
+@update("Storage", "automatic_storage_dumps_after_storage_duration", attr="", post=_post_dumps)
+def st_dumps(I, g):
+    positive_inputs(I, g, "data_storage_duration")
+    return None
+
+
+@update("Storage", "update_storage_delta")
+def st_delta(I, g):
+    """delta = needed + freed + dumps  (by timestamp, missing hours as zero)"""
+    positive_inputs(I, g, "data_storage_duration")
+    dumps, needed, S, cond = mv_storage_dumps(I, g)
+    return mv_add(mv_add(needed, mv_storage_freed(I, g)), dumps)
+
+
+def _post_cum(I, g, res, qual):
+    if isinstance(res, ExplU): res = I.resolve(res)
+    if res.kind == "ehq":
+        v = res.value.vec
+        I.eng.oblige(f"{qual}/C04: the cumulative stored volume is never negative", z3.Implies(v.inidx(TT), v.val(TT) >= 0))
+
+
+@update("Storage", "update_full_cumulative_storage_need", post=_post_cum)
+def st_cum(I, g):
+    """cum(t) = base + running sum of delta up to t ; ValueError iff it goes negative at some hour"""
+    d = g.mv("storage_delta")
+    if I.eng.decide(d.is_empty): return MV(True, EMPTY_VEC, DIMLESS)
+    base = g.q("base_storage_need")
+    dv = d.vec
+    vec = Vec(dv.inidx, lambda t: base + dv.prefix(t), tmin=dv.tmin, tmax=dv.tmax, n=dv.n, origin=dv.origin)
+    from ..interp import Series
+    m = I.series_method(Series(DF(vec, Unit(DIMLESS, 1.0))), "min", [], {})
+    if I.eng.decide(m.phys < 0): raise SymRaise("ValueError", "negative cumulative storage need")
+    return MV(False, vec, DIMLESS)
+
+
+@update("Storage", "update_raw_nb_of_instances")
+def st_raw(I, g):
+    cap = g.q("storage_capacity")
+    I.require("storage capacity is not zero", cap != 0)
+    return mv_scale(g.mv("full_cumulative_storage_need"), 1 / cap, DIMLESS)
+
+
+@update("Storage", "update_nb_of_instances", post=_post_covers_raw)
+def st_nb(I, g):
+    """nb(t) = ceil(raw(t)), or the user-fixed count when it covers the peak (ValueError otherwise)"""
+    raw = g.mv("raw_nb_of_instances")
+    fixed = g.raw("fixed_nb_of_instances")
+    if I.eng.decide(raw.is_empty): return MV(True, EMPTY_VEC, DIMLESS)
+    nb = mv_map(raw, ceil_r)
+    if not I.eng.decide(fixed.is_empty):
+        from ..interp import Series
+        m = I.series_method(Series(DF(nb.vec, Unit(DIMLESS, 1.0))), "max", [], {})
+        f = fixed.nonempty.value.phys
+        if I.eng.decide(m.phys > f): raise SymRaise("ValueError", "fixed number of instances exceeded")
+        return MV(False, Vec(raw.vec.inidx, lambda t: f), DIMLESS)
+    return nb
+
+
+def _abs(x): return z3.If(x >= 0, x, -x)
+
+
+def _post_active(I, g, res, qual):
+    if isinstance(res, ExplU): res = I.resolve(res)
+    nb = g.mv("nb_of_instances")
+    if res.kind == "ehq":
+        v = res.value.vec
+        I.eng.oblige(f"{qual}/C04: active instances never exceed provisioned ones",
+                     z3.Implies(z3.And(v.inidx(TT), z3.Not(nb.is_empty), nb.vec.inidx(TT)), v.val(TT) <= _abs(nb.vec.val(TT))))
+
+
+@update("Storage", "update_nb_of_active_instances", post=_post_active)
+def st_active(I, g):
+    """active(t) = min( (max(|needed|(t), |freed|(t)) + |dumps|(t)) / capacity , |nb|(t) )  -- combined BY TIMESTAMP,
+    hours missing from one series counting as zero (C04: never by position)"""
+    positive_inputs(I, g, "data_storage_duration")
+    cap = g.q("storage_capacity")
+    I.require("storage capacity is not zero", cap != 0)
+    dumps, needed, S, cond = mv_storage_dumps(I, g)
+    freed = mv_storage_freed(I, g)
+    nb = g.mv("nb_of_instances")
+    mx = lambda a, b: z3.If(a >= b, a, b)
+    mn = lambda a, b: z3.If(a <= b, a, b)
+    tmp_in = lambda t: z3.Or(needed.inidx(t), freed.inidx(t), dumps.inidx(t))
+    tmp_val = lambda t: (mx(_abs(needed.v0(t)), _abs(freed.v0(t))) + _abs(dumps.v0(t))) / cap
+    vec = Vec(tmp_in, lambda t: mn(tmp_val(t), _abs(nb.v0(t))))
+    return MV(z3.And(needed.is_empty, freed.is_empty), vec, DIMLESS)
+
+
+@update("Storage", "update_instances_energy")
+def st_energy(I, g):
+    """E(t) = active(t)*power*1h*PUE + (nb(t) - active(t))*idle_power*1h*PUE, PUE being the server's (C12)"""
+    pue = g.raw("power_usage_effectiveness")
+    if isinstance(pue, ExplU): pue = I.resolve(pue)
+    nb, act = g.mv("nb_of_instances"), g.mv("nb_of_active_instances")
+    if pue.kind == "empty": return MV(True, EMPTY_VEC, W.ENERGY)
+    p = pue.value.phys
+    power, idle = g.q("power"), g.q("idle_power")
+    vec = Vec(nb.vec.inidx, lambda t: act.vec.val(t) * power * HOUR_S * p + (nb.vec.val(t) - act.vec.val(t)) * idle * HOUR_S * p)
+    return MV(nb.is_empty, vec, W.ENERGY)
+
+
+def _same_index_inv(other_attr):
+    def hook(I, owner, value):
+        o = mv_of(I.model_getattr(owner, other_attr))
+        I.eng.assume(value.is_empty == o.is_empty)
+        v = value.nonempty.value.vec
+        I.add_universal(lambda t: z3.Implies(z3.Not(value.is_empty), v.inidx(t) == o.vec.inidx(t)))
+    return hook
+
+
+def _storage_index_inv(I, owner, value):
+    """consistent state: nb_of_instances (like raw / cumulative need / delta) lives on the index of needed+freed+dumps"""
+    g = G(I, owner)
+    I.eng.assume(g.q("data_storage_duration") >= 0)
+    dumps, needed, S, cond = mv_storage_dumps(I, g)
+    d = mv_add(mv_add(needed, mv_storage_freed(I, g)), dumps)
+    I.eng.assume(value.is_empty == d.is_empty)
+    v = value.nonempty.value.vec
+    I.add_universal(lambda t: z3.Implies(z3.Not(value.is_empty), v.inidx(t) == d.vec.inidx(t)))
+
+
+ATTR_INV[("Storage", "nb_of_active_instances")] = _same_index_inv("nb_of_instances")
+ATTR_INV[("Storage", "nb_of_instances")] = _storage_index_inv
+WORLD_SPECS = {("Storage", "storage_needed"): call_storage_needed, ("Storage", "storage_freed"): call_storage_freed,
+               ("Storage", "automatic_storage_dumps_after_storage_duration"): call_storage_dumps}
+LOOP_SPECS["efootprint.core.hardware.storage.Storage.storage_needed"] = _stored_loops(True)()
+LOOP_SPECS["efootprint.core.hardware.storage.Storage.storage_freed"] = _stored_loops(False)()
+
+
+QN_DF_FROM_LIST = "efootprint.builders.time_builders.create_hourly_usage_df_from_list"
+
+
+def spec_df_from_list(I, input_list, start_date=None, pint_unit=None):
+    """contract of create_hourly_usage_df_from_list: one value per hour from start_date, element for element, in pint_unit
+    (its own body is verified against this contract under C20)"""
+    from ..interp import TS
+    if start_date is None or start_date is NONE: raise Unsupported("default start date")
+    if not isinstance(start_date, TS): raise Unsupported("start date kind")
+    unit = pint_unit if isinstance(pint_unit, Unit) else I.units.literal("dimensionless")
+    if isinstance(input_list, SList):
+        n = input_list.n
+        elemf = lambda i: input_list.elem(i)
+    elif isinstance(input_list, list):
+        n = z3.IntVal(len(input_list)); elemf = None
+    else:
+        raise Unsupported("input list kind")
+    s0 = start_date.tick
+    def inidx(t): return z3.And(t >= s0, t < s0 + HOUR * n, (t - s0) % HOUR == 0)
+    def val(t):
+        if isinstance(input_list, SList):
+            e = input_list.elem((t - s0) / HOUR)
+            return e.r * unit.f
+        out = z3.RealVal(0)
+        for k, e in enumerate(input_list):
+            out = z3.If(t == s0 + HOUR * k, e.r * unit.f, out)
+        return out
+    vec = Vec(inidx, val, tmin=s0, tmax=s0 + HOUR * (n - 1), n=n)
+    return DF(vec, unit)
+
+
+REPO_SPECS[QN_DF_FROM_LIST] = spec_df_from_list
